@@ -87,9 +87,14 @@ def c02_r3(ctx, f):
         return poly.normalise(fn.canon(op, pt), ren)
 
     def loop_hi(lid):
+        """upper bound of a loop over lo..hi; a non-zero lower bound is folded in as a marker so that it never compares equal"""
         k = loops.get(lid)
         if k and k[0] == "range0":
             return poly.normalise(k[1], ren)
+        if k and k[0] == "range":
+            lo = poly.normalise(k[1], ren)
+            hi = poly.normalise(k[2], ren)
+            return hi if lo == C(0) else hi + A(("starts-at", lo.show()))
         return None
 
     g1c, g1s, g2c, g2s, elen, D0 = A("g1c"), A("g1s"), A("g2c"), A("g2s"), A("elen"), A("D0")
@@ -929,19 +934,37 @@ def c07_r2(ctx, f):
         ctx.abstain(rid, "xor target index is not a sum of two loop variables: %s" % tgt.show(), fn.where(pt))
         return
     his = {lv: loops.get(lv[1]) for lv in lvs}
-    jl = [lv for lv in lvs if his[lv] and his[lv][0] == "range0"]
-    il = [lv for lv in lvs if lv not in jl]
-    if len(jl) != 1 or len(il) != 1 or not his[il[0]] or his[il[0]][0] != "range":
+
+    def bounds(k):
+        if not k:
+            return None
+        if k[0] == "range0":
+            return C(0), poly.normalise(k[1], ren)
+        if k[0] == "range":
+            return poly.normalise(k[1], ren), poly.normalise(k[2], ren)
+        return None
+
+    # inner loop = the one whose header is dominated by the other's header
+    hb = {lv: def_of(fn, lv[1]).point[0] for lv in lvs}
+    a_, b_ = lvs
+    if fn.dominates(hb[a_], hb[b_]) and hb[a_] != hb[b_]:
+        il, jl = [a_], [b_]
+    elif fn.dominates(hb[b_], hb[a_]):
+        il, jl = [b_], [a_]
+    else:
+        il, jl = [], []
+    if len(jl) != 1 or len(il) != 1 or bounds(his[il[0]]) is None or bounds(his[jl[0]]) is None:
         ctx.abstain(rid, "loop structure of the division not recognised: %s" % str(his)[:200], fn.where(pt))
         return
     i, j = A(il[0]), A(jl[0])
     names = {il[0]: "i", jl[0]: "j"}
     ctx.check(rid, tgt == i + j, fn.path + "/target", fn.where(pt), fn.path, "xor target", "the step does not update rem[i + j]", expected="i + j",
               found=tgt.show(names), sample="rem[i + j] ^= ..")
-    jhi = poly.normalise(his[jl[0]][1], ren)
-    ctx.check(rid, jhi == G_, fn.path + "/j-range", fn.where(pt), fn.path, "inner loop", "the inner loop does not run over all generator coefficients (0..len(g))",
-              expected="len(g)", found=jhi.show(), sample="j in 0..len(g)")
-    ilo, ihi = poly.normalise(his[il[0]][1], ren), poly.normalise(his[il[0]][2], ren)
+    jlo, jhi = bounds(his[jl[0]])
+    ctx.check(rid, jlo == C(0) and jhi == G_, fn.path + "/j-range", fn.where(pt), fn.path, "inner loop",
+              "the inner loop does not run over all generator coefficients (0..len(g))",
+              expected="0 .. len(g)", found="%s .. %s" % (jlo.show(), jhi.show()), sample="j in 0..len(g)")
+    ilo, ihi = bounds(his[il[0]])
     start = C(256) - F_ - G_
     ctx.check(rid, ilo == start and ihi == start + F_, fn.path + "/i-range", fn.where(pt), fn.path, "outer loop",
               "the outer loop does not run over the dividend positions start .. start+len(f), start = 256 - len(f) - len(g)",
